@@ -64,6 +64,24 @@ CORPUS = [
     "H reg 9;reg 10;inst 1 0;alias 0 19;inst 0 0;setarg 2 19 1",
     # conflict outcomes
     "H reg 1;inst 0 0;imp 0 0",
+    # version ORDER, not field-wise comparison: 1.2.0 > 1.1.5 (larger minor, smaller patch), higher version created first / last
+    "H reg 13;reg 12;inst 0 0;inst 1 0",
+    "H reg 12;reg 13;inst 0 0;inst 1 0",
+    "H reg 14;reg 13;reg 16;reg 12;inst 0 0;inst 1 0;inst 2 0;inst 3 0",
+    "H reg 12;reg 16;reg 13;reg 14;inst 0 0;inst 1 0;inst 2 0;inst 3 0",
+    "H reg 21;reg 19;inst 0 0;inst 1 0",
+    # tracks are compared as keys, not as textual prefixes: 1.x vs 12.x, 0.2.x vs 0.21.x, longer-numbered created first / last
+    "H reg 15;reg 13;inst 0 0;inst 1 0",
+    "H reg 13;reg 15;inst 0 0;inst 1 0",
+    "H reg 20;reg 19;inst 0 0;inst 1 0",
+    "H reg 19;reg 20;inst 0 0;inst 1 0",
+    "H reg 20;reg 21;reg 19;reg 22;inst 0 0;inst 1 0;inst 2 0;inst 3 0",
+    # pre-release (no track) and build metadata (on the track, ordered by the semver crate) next to the release
+    "H reg 18;reg 13;reg 17;inst 0 0;inst 1 0;inst 2 0",
+    "H reg 13;reg 17;reg 18;inst 0 0;inst 1 0;inst 2 0;imp 36 2",
+    # explicit imports on those tracks
+    "H imp 35 2;reg 12;inst 0 0;imp 37 2",
+    "H imp 42 4;imp 41 4;reg 21;inst 0 0",
 ]
 
 
@@ -276,8 +294,10 @@ def run(res, tier, seed, replay):
         spec_failures_on_impl=len(prop_fail), distinct_nontrivial=len(shapes), encode_outcomes=outcome_hist,
         permutation_groups=perm_groups, permutation_group_modes_compared=perm_compared,
         known_finding_observations={k: len(v) for k, v in known_hits.items()},
-        rule="same compositions as C02 (regression corpus + random accepted API histories over 12 packages incl. versioned "
-             "interface names a:b/c@0.2.0/0.2.1/0.2.5/0.3.0, x:y/z@1.0.0/1.2.0, u:s/{types,api}@1.0.0/1.1.0 with `use`), each under "
+        rule="same compositions as C02 (regression corpus + random accepted API histories over 23 packages incl. versioned "
+             "interface names a:b/c@0.2.0/0.2.1/0.2.5/0.3.0, x:y/z@1.0.0/1.2.0, u:s/{types,api}@1.0.0/1.1.0 with `use`, "
+             "v:w/i@1.1.5/1.2.0/1.10.0/1.4.0/12.0.1/1.3.0-rc.1/1.2.0+b5 and p:q/r@0.2.0/0.2.10/0.21.0/0.3.0 (numeric vs field-wise vs "
+             "textual-prefix orders disagree)), each under "
              "up to 3/4 dependency-preserving creation orders, both dependency modes. non-trivial = distinct output interfaces "
              "(import name/sort/instance-export-names set + export name/sort set) of compositions in which at least two import "
              "requirements share one import (same name) or a name is redirected to a higher version on its track",
